@@ -485,7 +485,7 @@ def run(ctx):
             r3.instance(f.qname)
             rr = StoreApply(P, f, r3, wrapper_of)
             S.run(rr, f)
-            if rr.zero_exits < 2 or len(rr.fields) != 1:
+            if rr.zero_exits < 1 or len(rr.fields) != 1:
                 raise Broken("C11.R3: %s: %d success exits, fields stored %s" % (f.name, rr.zero_exits, rr.fields))
             setters[f.name] = list(rr.fields)[0]
     if set(setters.values()) != set(fields):
@@ -831,3 +831,67 @@ def run(ctx):
     btl = [t for t in tables if t.proto == "btls"][0]
     c09.check_inheritance(P, btl, P.fn("set_verify"), r9)
     r9.floor(9, "inherited TLS policy fields")
+
+    # ------------------------------------------------------------------ R10
+    r10 = ctx.rule("C11.R10", "attribute setters answer 0 or -1: the walk over an attribute map stops on any non-zero status but fails only on a negative one")
+    check_setter_status(P, r10)
+
+
+def check_setter_status(P, rule):
+    """xcm.c applies an attribute map with a callback that stops at the first non-zero status, and its caller treats only a
+    negative status as failure: a setter answering a positive value makes every attribute after it (xcm.blocking included)
+    silently unapplied.  Every registered setter, and every status-returning helper it calls directly, has no path that
+    returns a positive constant."""
+    regs = registrations(P)
+    fns = {}
+    for name, lst in regs.items():
+        for rf, c, sd, gd in lst:
+            if sd is None:
+                continue
+            fns[sd.key] = sd
+            for cc in sd.calls():
+                for d in P.callees(sd, cc)[0]:
+                    if (d.ret or "").strip() == "int" and d.file.startswith("libxcm/tp/") and ("set" in d.name):
+                        fns[d.key] = d
+    if len(fns) < 10:
+        raise Broken("setter-status: only %d setters found" % len(fns))
+    nbad = 0
+    for d in sorted(fns.values(), key=lambda g: g.qname):
+        rule.instance(d.qname)
+        def origin_bad(x, depth=0):
+            """None if the value is 0, -1 or another function's status; else the offending expression"""
+            x = d._strip0(x)
+            m = d.nodes[x]
+            cv = C.const_of(d, x)
+            if cv is not None:
+                return None if cv in (0, -1) else x
+            if m["k"] == "call":
+                return None
+            if m["k"] == "cond":
+                return origin_bad(m["tv"], depth + 1) or origin_bad(m["fv"], depth + 1)
+            if m["k"] == "ref" and m.get("dk") == "local" and depth < 4:
+                defs = []
+                for mm in d.nodes.values():
+                    if mm["k"] == "decl":
+                        defs += [v["init"] for v in mm["vars"] if v.get("did") == m.get("did") and v.get("init") is not None]
+                    elif mm["k"] == "bin" and mm["op"] == "=" and d.nodes[d._strip0(mm["l"])].get("did") == m.get("did") and d.nodes[d._strip0(mm["l"])]["k"] == "ref":
+                        defs.append(mm["r"])
+                for dx in defs:
+                    b = origin_bad(dx, depth + 1)
+                    if b is not None:
+                        return b
+                return None if defs else x
+            return x
+        pos = None
+        for n in d.nodes.values():
+            if n["k"] == "return" and n.get("sub") is not None:
+                b = origin_bad(n["sub"])
+                if b is not None:
+                    pos = (n, b)
+                    break
+        if pos:
+            nbad += 1
+            rule.violation("%s:status-not-0-or-minus-1" % d.name, "%s can answer `%s`, which may be positive: the attribute map walk stops (status != 0) but the call is not failed "
+                           "(status >= 0), so the attributes not yet applied - xcm.blocking among them - are silently dropped" % (d.name, d.show(pos[1])[:50]), loc=d.loc(pos[0]))
+        else:
+            rule.ok("%s answers 0, -1 or another setter's status only" % d.qname, "value origin of every return")
